@@ -94,7 +94,10 @@ Definition exact_lookup (lexs : list lexicon) (q : list N) : option (list N) :=
 (* ---------- naive scan of the source CSV ---------- *)
 (* one CSV row as far as lookup is concerned: surface bytes and left id *)
 Definition row : Type := (list N * Z)%type.
-Definition indexed (r : row) : bool := cmp_eval_z LF.should_index_cmp (snd r) LF.should_index_rhs.
+(* SPECIFICATION side (property text: "entries declared non-indexed (negative left id) are never returned"):
+   fixed here, not read from the code; that the builder's should_index says the same is obligation C04_fact_should_index *)
+Definition indexed (r : row) : bool := Z.leb 0 (snd r).
+Definition builder_indexes (left : Z) : bool := cmp_eval_z LF.should_index_cmp left LF.should_index_rhs.
 
 Fixpoint prefix_b (k rest : list N) : bool :=
   match k, rest with
